@@ -519,10 +519,11 @@ func TestVerif_C06(t *testing.T) {
 			var perr error
 			var parsed *pql.Query
 			if pan := vx.Guard(func() { parsed, perr = pql.ParseString(q) }); pan != "" {
-				// the HTTP handler recovers this one; it is a finding only if it leaves a lock held,
-				// which the parser cannot. Recorded as outcome, not as violation.
-				c.Outcome("pql-parse|panic-recovered-by-handler")
-				c.Distinct("pql-parse|panic|" + q)
+				// "PQL text is either accepted or rejected with an error": the parser's contract is
+				// (query, error); a panic out of ParseString is neither (API.Query has no recover of
+				// its own — only the HTTP handler above it does)
+				c.Violate("panic entry=pql.ParseString", q, pan, "a query or an error")
+				c.Outcome("pql-parse|panic")
 				continue
 			}
 			if perr != nil || parsed == nil {
@@ -555,6 +556,62 @@ func TestVerif_C06(t *testing.T) {
 		prog("done")
 	}, nil)
 
+	// ---- P2: grammar-directed PQL: every call name x every argument list of 1..3 arguments -----
+	// (token strings of length <= L cannot reach "a call with a condition AND a further argument")
+	{
+		names := []string{"Row", "Set", "Count", "TopN", "Range", "Whatever"}
+		args := []string{"1", "f=1", `f="s"`, "f=[1,2]", "f>1", "0<f<5", "0<=f<=5", "f><[1,5]", "f!=null", "Row(f=1)", "2017-01-01T00:00", "_col=1", "f=true", "n=2"}
+		var qs []string
+		for _, n := range names {
+			for i := range args {
+				qs = append(qs, n+"("+args[i]+")")
+				for j := range args {
+					qs = append(qs, n+"("+args[i]+", "+args[j]+")")
+					for k := range args {
+						qs = append(qs, n+"("+args[i]+", "+args[j]+", "+args[k]+")")
+					}
+				}
+			}
+		}
+		c.Bound("pql_structured_calls", len(qs))
+		gchunk := 1500
+		c.ProcFor(c.NextRunLabel(), (len(qs)+gchunk-1)/gchunk, []byte(progDir), func(in []byte, ci int, emit func([]byte)) {
+			prog := c06Progress(string(in))
+			var env *c23EnvLite
+			for k := ci * gchunk; k < (ci+1)*gchunk && k < len(qs); k++ {
+				q := qs[k]
+				c.AddEval(1)
+				var perr error
+				var parsed *pql.Query
+				if pan := vx.Guard(func() { parsed, perr = pql.ParseString(q) }); pan != "" {
+					c.Violate("panic entry=pql.ParseString", q, pan, "a query or an error")
+					c.Outcome("pql-parse|panic")
+					continue
+				}
+				if perr != nil || parsed == nil {
+					c.Outcome("pql-parse|error")
+					continue
+				}
+				c.Outcome("pql-parse|ok")
+				c.Distinct("pql2|" + q)
+				prog("API.Query <- " + q)
+				if env == nil {
+					env = c06NewEnv()
+				}
+				if pan := vx.Guard(func() { _, _ = env.api.Query(context.Background(), &QueryRequest{Index: "i", Query: q}) }); pan != "" {
+					if !env.served() {
+						c.Violate("lock-not-released entry=API.Query", q, "follow-up request did not complete after a recovered panic: "+pan, "served")
+						return
+					}
+					c.Outcome("pql-exec|panic-recovered-by-handler")
+				} else {
+					c.Outcome("pql-exec|returned")
+				}
+			}
+			prog("done")
+		}, nil)
+	}
+
 	// ---- M: cluster messages (external file) ----------------------------------------------------
 	if C06External != nil {
 		C06External(c, progDir)
@@ -572,7 +629,7 @@ func TestVerif_C06(t *testing.T) {
 			}
 		}
 	}
-	c.Assume("byte strings far from any valid encoding and longer than the token bound are not reached; in-request panics that the HTTP handler recovers are accepted as the statement allows, provided locks are released")
+	c.Assume("byte strings far from any valid encoding and longer than the token bound are not reached; panics during query EXECUTION that the HTTP handler recovers are accepted as the statement allows, provided locks are released; a panic out of the parser (pql.ParseString returns a query or an error) is not")
 	if c.Finish() != 0 {
 		t.Fail()
 	}
